@@ -209,6 +209,43 @@ func main() {
 		return false
 	})
 	sort.Strings(iface)
+	// variant flags: which of the known repairs the source contains
+	suicideRestoresSize, sizeRejournals, evmRestoresBatch := false, false, false
+	for _, f := range fns {
+		if f.recv == "suicideChange" && f.name == "revert" && (f.calls["setSize"] || f.calls["SetSize"]) {
+			suicideRestoresSize = true
+		}
+	}
+	for _, k := range kinds {
+		if k.name == "sizeChange" {
+			sizeRejournals = k.rejournal
+		}
+	}
+	ef, err := parser.ParseFile(fset, filepath.Join(*repo, "core", "vm", "evm.go"), nil, 0)
+	if err != nil {
+		fmt.Fprintln(os.Stderr, err)
+		os.Exit(1)
+	}
+	foundRevert := false
+	for _, d := range ef.Decls {
+		fd, ok := d.(*ast.FuncDecl)
+		if !ok || fd.Body == nil || fd.Name.Name != "revertToSnapshot" {
+			continue
+		}
+		foundRevert = true
+		ast.Inspect(fd.Body, func(nd ast.Node) bool {
+			if ce, ok := nd.(*ast.CallExpr); ok {
+				if se, ok := ce.Fun.(*ast.SelectorExpr); ok && se.Sel.Name == "Put" {
+					evmRestoresBatch = true
+				}
+			}
+			return true
+		})
+	}
+	if !foundRevert {
+		fmt.Fprintln(os.Stderr, "c12journal: EVM.revertToSnapshot not found")
+		os.Exit(1)
+	}
 	if len(kinds) == 0 || len(sdbM) == 0 || len(iface) == 0 {
 		fmt.Fprintln(os.Stderr, "c12journal: nothing found (source layout changed?)")
 		os.Exit(1)
@@ -264,7 +301,11 @@ func main() {
 	}
 	fmt.Fprintf(&sb, "Definition statedb_exported : list string := %s.\n\n", ql(all))
 	sb.WriteString("(* method set of the vm.StateDB interface *)\n")
-	fmt.Fprintf(&sb, "Definition evm_statedb_interface : list string := %s.\n", ql(iface))
+	fmt.Fprintf(&sb, "Definition evm_statedb_interface : list string := %s.\n\n", ql(iface))
+	sb.WriteString("(* which variant of the code this is (the model follows these flags) *)\n")
+	fmt.Fprintf(&sb, "Definition gen_suicide_restores_size : bool := %s.   (* suicideChange.revert restores the size counter *)\n", b(suicideRestoresSize))
+	fmt.Fprintf(&sb, "Definition gen_size_revert_rejournals : bool := %s.  (* sizeChange.revert goes through a journalling setter *)\n", b(sizeRejournals))
+	fmt.Fprintf(&sb, "Definition gen_evm_revert_restores_batch : bool := %s. (* EVM.revertToSnapshot writes to the batch *)\n", b(evmRestoresBatch))
 	if *out == "" {
 		fmt.Print(sb.String())
 		return
